@@ -1738,6 +1738,11 @@ class MiniInterp:
                 return r
         if t in SAFE_METHODS and attr in SAFE_METHODS[t]:
             return T("native", obj, attr)
+        if attr in ("__add__", "__radd__", "__sub__", "__rsub__", "__mul__", "__rmul__", "__floordiv__", "__mod__", "__or__", "__and__") and \
+                (self.plain(obj) or isinstance(obj, Lin)) and not isinstance(obj, dict):
+            op2 = {"add": ast.Add, "sub": ast.Sub, "mul": ast.Mult, "floordiv": ast.FloorDiv, "mod": ast.Mod, "or": ast.BitOr, "and": ast.BitAnd}[attr.strip("_").lstrip("r") if attr.startswith("__r") and attr not in ("__rshift__",) else attr.strip("_")]()
+            refl = attr.startswith("__r") and attr != "__rshift__"
+            return PyFn(attr, lambda a, k, obj=obj, op2=op2, refl=refl: self.binop(op2, a[0], obj, node) if refl else self.binop(op2, obj, a[0], node))
         if attr in ("__eq__", "__ne__", "__lt__", "__le__", "__gt__", "__ge__") and (self.plain(obj) or isinstance(obj, (list, tuple, dict))):
             op_ = {"__eq__": ast.Eq, "__ne__": ast.NotEq, "__lt__": ast.Lt, "__le__": ast.LtE, "__gt__": ast.Gt, "__ge__": ast.GtE}[attr]()
             return PyFn(attr, lambda a, k, obj=obj, op_=op_: self.compare(op_, obj, a[0]))
